@@ -331,8 +331,12 @@ C_<TN_, TA_, SG_, TH_, TS_...>::deepExit(PlanControl& control) noexcept {
 
 	Prong& resumable = compoResumable(control);
 
-	SubStates::wideExit(control, active);
-	HeadState::deepExit(control);
+	{
+		ScopedRegion region{control, REGION_ID, HEAD_ID, REGION_SIZE};
+
+		SubStates::wideExit(control, active);
+		HeadState::deepExit(control);
+	}
 
 	resumable = active;
 	active	  = INVALID_PRONG;
